@@ -320,9 +320,12 @@ META = {
                 '(Vpsc/StaticModel.v: vpsc::Solver with shape-exact pairing heaps, compared exactly with the compiled solver by checks/c01.py / c02.py) and carries '
                 'the solver\'s tolerance through the chain lemma (C09_pipeline_x/y_chain_tolerance: constraints satisfied up to eps leave no overlap when '
                 'eps * n <= 2 * EXTRA_GAP; eps = 1e-10, n <= 10^7; C09_static_solve_contract: a normal return of the model satisfies every constraint to 1e-10). '
-                'PARTIAL: one premise remains - the static solver model RETURNS on the last pass (does not throw UnsatisfiedConstraint on that acyclic set, fuel '
-                'suffices); C01_static_no_throw_on_dag_partial proves only the closing step, the order argument of mergeLeft is evaluated as booleans on every '
-                'visited state of every DAG instance (evidence key model_invariants_static_solver of C01). The entail_check certificate is still evaluated on '
+                'PARTIAL: one premise remains - the static solver model RETURNS on the last pass (Solver::solve = satisfy; refine does not throw '
+                'UnsatisfiedConstraint on that acyclic set, fuel suffices). Of it, Solver::satisfy is now PROVED to return with every constraint satisfied exactly '
+                '(C01_static_no_throw_on_dag, C09_static_satisfy_returns; Vpsc/StaticDag.v), and the DFS order of Blocks::totalOrder on the generated (ranked) sets is proved to be a repetition-free topological '
+                'order (Vpsc/StaticDfs.v, C09_last_pass_satisfy_returns: unconditional). So C09_removeoverlaps_no_overlap_static_refine_only_partial needs ONLY that '
+                'Solver::refine returns from the state satisfy produced, in which every constraint already holds exactly (refine is modelled and compared '
+                'with the compiled code, but no no-throw theorem is proved for split / mergeRight). The entail_check certificate is still evaluated on '
                 'every instance (model\'s and implementation\'s constraint sets) as validation of model and chain lemma. The model is compared exactly '
                 'with the compiled generators on every run.',
         'design_ref': 'DESIGN.md 5.9'},
